@@ -17,6 +17,7 @@ theorem `size_fits` shows it never happens for the size type the code selects).
 Each definition follows the loop structure of the C++ function of the same name.
 -/
 import Tetl.Common
+import Tetl.C01.GenSize
 namespace Tetl.C01
 
 abbrev V := List Nat
@@ -24,6 +25,9 @@ abbrev V := List Nat
 inductive Kind where
   | triv   -- trivial element type: `static_vector_trivial_storage`, defaulted copy/move of inplace_vector
   | nt     -- non-trivial element type: `static_vector_non_trivial_storage`, uninitialized_copy/move
+  | hd     -- non-trivial "handle": move construction / assignment transfer the value and *empty the source*,
+           -- the move assignment has no self test, so `x = move(x)` empties `x` (a type for which a needless
+           -- self-move-assignment is visible; std::erase_if never performs one)
   deriving DecidableEq, Repr, Inhabited
 
 inductive Ty where
@@ -33,16 +37,29 @@ inductive Ty where
 /-- value shown by a moved-from element of the non-trivial harness class -/
 def MOVED : Nat := 9999
 
-/-- the value left in `*src` by `T(etl::move(*src))` / `*dst = etl::move(*src)` -/
+/-- value shown by an emptied handle (harness class `HD`) -/
+def EMPTIED : Nat := 9998
+
+/-- the value left in `*src` by `T(etl::move(*src))` / `*dst = etl::move(*src)`, `dst ≠ src` -/
 def mvd : Kind → Nat → Nat
   | .triv, x => x
   | .nt, _ => MOVED
+  | .hd, _ => EMPTIED
+
+/-- the value of `x` after `x = etl::move(x)`: `int` and the class `NT` (which tests `this != &o`) keep it,
+    the handle `HD` transfers to itself and then empties "the source" -/
+def selfMv : Kind → Nat → Nat
+  | .triv, x => x
+  | .nt, x => x
+  | .hd, _ => EMPTIED
 
 /-! ### smallest_size_t -/
 
-/-- `smallest_size_t<N>`: the threshold chain `N < (unsigned char)(-1)` … as a bit width -/
-def smallestBits (n : Nat) : Nat :=
-  if n < 255 then 8 else if n < 65535 then 16 else if n < 4294967295 then 32 else 64
+/-- `smallest_size_t<N>` as a bit width: the `conditional_t` chain of the header — `GenSize.chain`, regenerated from
+    `_type_traits/smallest_size_t.hpp` on every run (gen/sizetype.py), thresholds as the source spells them — evaluated
+    for `N = n` (`pick`), then the width of the selected type under the target's data model (`CTy.bits`).
+    `smallestBits_closed` gives the closed form for the header as it is. -/
+def smallestBits (n : Nat) : Nat := (pick n GenSize.chain GenSize.fallback).bits
 
 /-- `_size = size_type(newSize)` -/
 def wrap (cap n : Nat) : Nat := n % 2 ^ smallestBits cap
@@ -73,6 +90,15 @@ def initSize (ty : Ty) (cap : Nat) : Init → Nat
 /-- checked element assignment `p[i] = x` for a live element -/
 def wr {α : Type} (l : List α) (i : Nat) (x : α) : Except Err (List α) :=
   if i < l.length then .ok (l.set i x) else .error .oob
+
+/-- element move assignment `p[dst] = etl::move(p[src])` on live elements of kind `k`: the destination takes
+    the value, the source is left in its moved-from state; with `dst = src` the element is self-move-assigned -/
+def mvAsg (k : Kind) (l : V) (dst src : Nat) : Except Err V := do
+  let x ← rd l src
+  if dst = src then wr l dst (selfMv k x)
+  else do
+    let l1 ← wr l dst x
+    wr l1 src (mvd k x)
 
 /-! ### algorithms -/
 
@@ -118,19 +144,22 @@ def findIf (p : Nat → Bool) (l : V) (i : Nat) : Nat → Except Err Nat
     let x ← rd l i
     if p x then .ok i else findIf p l (i + 1) n
 
-/-- the loop `for (auto i = first; ++i != last;)` of `remove_if`; `i` is already incremented -/
-def removeLoop (p : Nat → Bool) (l : V) (first i : Nat) : Nat → Except Err (V × Nat)
+/-- the loop `for (auto i = first; ++i != last;)` of `remove_if`; `i` is already incremented;
+    `*first++ = etl::move(*i)` is an element move assignment (`mvAsg`: the source `*i` is left moved-from) -/
+def removeLoop (k : Kind) (p : Nat → Bool) (l : V) (first i : Nat) : Nat → Except Err (V × Nat)
   | 0 => .ok (l, first)
   | n + 1 => do
     let x ← rd l i
     if !p x then do
-      let l1 ← wr l first x
-      removeLoop p l1 (first + 1) (i + 1) n
-    else removeLoop p l first (i + 1) n
+      let l1 ← mvAsg k l first i
+      removeLoop k p l1 (first + 1) (i + 1) n
+    else removeLoop k p l first (i + 1) n
 
-def removeIf (p : Nat → Bool) (l : V) : Except Err (V × Nat) := do
+/-- `remove_if(first, last, pred)`: `find_if` first — the elements in front of the first match are never
+    touched (not even move-assigned to themselves) — then the compaction loop -/
+def removeIf (k : Kind) (p : Nat → Bool) (l : V) : Except Err (V × Nat) := do
   let first ← findIf p l 0 l.length
-  if first ≠ l.length then removeLoop p l first (first + 1) (l.length - first - 1)
+  if first ≠ l.length then removeLoop k p l first (first + 1) (l.length - first - 1)
   else .ok (l, first)
 
 /-- `equal(first1, last1, first2, p)`: `n` iterations left -/
@@ -197,7 +226,7 @@ def appendAll (cap : Nat) (d : V) : List Nat → Except Err V
 /-- `insert(position, n, x)` -/
 def insertFill (cap : Nat) (d : V) (pos n x : Nat) : Except Err (V × Nat) :=
   if pos > d.length then .error (.pre "assert_iterator_in_range")
-  else if d.length + n > cap then .error (.pre "insert: size() + n <= capacity()")
+  else if n > cap - d.length then .error (.pre "insert: n <= capacity() - size()")
   else do
     let b := d.length
     let d1 ← pushN cap d x n
@@ -368,8 +397,8 @@ def swapSelf (cap : Nat) (k : Kind) (a : V) : Except Err V := do
 /-! ### static_vector: non-member functions -/
 
 /-- `erase_if(c, pred)`: `remove_if`, `distance(it, end)`, `erase(it, end)` -/
-def eraseIf (cap : Nat) (d : V) (p : Nat → Bool) : Except Err (V × Nat) := do
-  let r ← removeIf p d
+def eraseIf (cap : Nat) (k : Kind) (d : V) (p : Nat → Bool) : Except Err (V × Nat) := do
+  let r ← removeIf k p d
   let cnt := r.1.length - r.2
   let e ← eraseRange cap r.1 r.2 r.1.length
   .ok (e.1, cnt)
@@ -437,7 +466,7 @@ def uninitLoop (src : V) (dst : V) (i : Nat) : Nat → Except Err V
 def ipvCopyCtor (cap : Nat) (k : Kind) (other : V) : Except Err V :=
   match k with
   | .triv => .ok other
-  | .nt => do
+  | _ => do
     let d ← uninitLoop other [] 0 other.length
     if d.length > cap then .error .oob else .ok d
 
@@ -446,7 +475,7 @@ def ipvCopyCtor (cap : Nat) (k : Kind) (other : V) : Except Err V :=
 def ipvMoveCtor (cap : Nat) (k : Kind) (other : V) : Except Err (V × V) :=
   match k with
   | .triv => .ok (other, other)
-  | .nt => do
+  | _ => do
     let d ← uninitLoop other [] 0 other.length
     if d.length > cap then .error .oob else .ok (d, [])
 
